@@ -60,6 +60,10 @@ func (c *EventCache) Add(event *Event) (added bool) {
 	if c.isDeleted(eventKey, event.Pubkey) {
 		return false
 	}
+	// a deletion request may reference a replaceable or addressable event by its id
+	if c.isDeleted(event.ID, event.Pubkey) {
+		return false
+	}
 
 	if added = c.add(eventKey, event); !added {
 		return
@@ -115,6 +119,12 @@ func (c *EventCache) deleteByKind5(event *Event) {
 
 	for _, key := range keys {
 		c.delete(eventCacheDeletedEventKey{key, event.Pubkey})
+
+		// an e tag may reference a replaceable or addressable event, which is
+		// stored under its address, not under its id
+		for ev := range c.evsIndex.idx[eventCacheEvsIndexKey{eventCacheEvsIndexKeyWhatID, key}] {
+			c.delete(eventCacheDeletedEventKey{c.getEventKey(ev), event.Pubkey})
+		}
 	}
 }
 
